@@ -7,14 +7,14 @@ Open Scope N_scope.
 (** Every count accessor (Arc::count, strong_count on Arc/ThinArc/OffsetArc/ArcUnion, strong_count through an
     ArcBorrow or ArcUnionBorrow), through every handle kind it exists for, in every reachable state --
     including the states inside callback bodies, which are ordinary states of the machine -- returns the number
-    of owning table entries of that value (raw pointers and forgotten handles included) with one atomic
+    of owning table entries (the observation carries the returned value and, second, the machine's own count of owners) of that value (raw pointers and forgotten handles included) with one atomic
     load, and changes neither table nor heap. *)
 Theorem C04_every_accessor_reports_the_number_of_owners :
   forall d s acc h x f, reachable s -> dead s = false -> skip s = 0%nat ->
     get_h s h = Some x -> count_impl acc (hk x) = Some f ->
     let r := step d s (OCount acc h) in
     exists site,
-      snd r = [S_OK; N.of_nat (owners (tbl s) (hl x)); 99999999; 5; site_code site; N.of_nat (owners (tbl s) (hl x))] /\
+      snd r = [S_OK; N.of_nat (owners (tbl s) (hl x)); N.of_nat (owners (tbl s) (hl x)); 99999999; 5; site_code site; N.of_nat (owners (tbl s) (hl x))] /\
       tbl (fst r) = tbl s /\ heap (ms (fst r)) = heap (ms s).
 Proof. intros d s acc h x f R Hd Hs. apply count_reports_owners; [apply reachable_inv; auto|split; auto]. Qed.
 
@@ -57,8 +57,8 @@ Proof. intros d s h x f R Hd Hs. apply drop_removes_one; [apply reachable_inv; a
     fat Arc reports 2, and 3 after cloning it there. *)
 Example C04_nonvacuous :
   snd (run false init_st (map decode [[0;4;2;0]; [20;0]; [41;0;0]; [25;1;0]; [20;0]; [25;0;0]; [42]])) =
-  [[0; 0; 99999999; 4; 0]; [0; 0; 99999999; 5; 1; 1]; [0; 99999999]; [0; 2; 99999999; 5; 0; 2];
-   [0; 0; 99999999; 5; 1; 2]; [0; 3; 99999999; 5; 2; 3]; [0; 99999999]].
+  [[0; 0; 99999999; 4; 0]; [0; 0; 99999999; 5; 1; 1]; [0; 99999999]; [0; 2; 2; 99999999; 5; 0; 2];
+   [0; 0; 99999999; 5; 1; 2]; [0; 3; 3; 99999999; 5; 2; 3]; [0; 99999999]].
 Proof. vm_compute. reflexivity. Qed.
 
 Check C04_every_accessor_reports_the_number_of_owners.
